@@ -51,6 +51,26 @@ def check_exhaustive(col, n, p, scalar=False):
                                   f"{np.dtype(dt).name} cell {cells[k].tolist()}: {int(dn[k])} vs int64 result {int(d[k])}")
             except Exception as ex:
                 col.violation("coord_dtype.raises", dict(case, dtype=np.dtype(dt).name), f"{type(ex).__name__}: {ex}")
+    # distance arrays of every integer dtype wide enough decode to the same cells
+    for dt in (np.uint64, np.int32, np.uint32, np.uint16, np.int16, np.uint8):
+        if N - 1 <= np.iinfo(dt).max:
+            col.count("evaluations", N)
+            try:
+                cn = hc.coordinates_from_distances(p, n, h.astype(dt))
+                if (np.asarray(cn).astype(np.int64) != c).any():
+                    k = int(np.nonzero((np.asarray(cn).astype(np.int64) != c).any(axis=1))[0][0])
+                    col.violation("distance_dtype", dict(case, dtype=np.dtype(dt).name, h=k),
+                                  f"{np.dtype(dt).name} distance {k}: {np.asarray(cn)[k].tolist()} vs int64 result {c[k].tolist()}")
+            except Exception as ex:
+                col.violation("distance_dtype.raises", dict(case, dtype=np.dtype(dt).name), f"{type(ex).__name__}: {ex}")
+    # descending / shuffled order of the distances (a vectorised decoder must not carry state between rows)
+    perm = np.concatenate([h[::-1][: N // 2], h[: N - N // 2][::3], h[1::3], h[2::3]]) if N > 3 else h[::-1]
+    cp = hc.coordinates_from_distances(p, n, perm)
+    col.count("evaluations", len(perm))
+    if (cp != c[perm]).any():
+        k = int(np.nonzero((cp != c[perm]).any(axis=1))[0][0])
+        col.violation("order_dependent_decode", dict(case, h=int(perm[k])),
+                      f"decoding {int(perm[k])} after {int(perm[k - 1]) if k else None} gives {cp[k].tolist()}, alone {c[perm[k]].tolist()}")
     # range
     if c.shape != (N, n) or (c < 0).any() or (c >= side).any():
         col.violation("coords_out_of_grid", case, "coordinates outside [0, 2^p)")
@@ -193,6 +213,18 @@ def check_structured(col, n, p):
     hs = np.array(sorted(hs), dtype=np.int64)
     c0 = hc.coordinates_from_distances(p, n, hs)
     c1 = hc.coordinates_from_distances(p, n, hs + 1)
+    for dt in (np.uint64, np.uint32, np.int32):
+        if N - 1 <= np.iinfo(dt).max:
+            col.count("evaluations", len(hs))
+            cu = np.asarray(hc.coordinates_from_distances(p, n, hs.astype(dt))).astype(np.int64)
+            if (cu != c0).any():
+                k = int(np.nonzero((cu != c0).any(axis=1))[0][0])
+                col.violation("distance_dtype", dict(case, dtype=np.dtype(dt).name, h=int(hs[k])),
+                              f"{np.dtype(dt).name} distance {int(hs[k])}: {cu[k].tolist()} vs int64 result {c0[k].tolist()}")
+    cr = hc.coordinates_from_distances(p, n, hs[::-1].copy())[::-1]
+    if (cr != c0).any():
+        k = int(np.nonzero((cr != c0).any(axis=1))[0][0])
+        col.violation("order_dependent_decode", dict(case, h=int(hs[k])), f"decoding in descending order changes the cell of {int(hs[k])}")
     col.count("evaluations", 2 * len(hs))
     if (c0 < 0).any() or (c0 >= side).any():
         col.violation("coords_out_of_grid", case, "coordinates outside the grid")
